@@ -46,7 +46,7 @@ def check(rep):
     # ---------------- reader: faults
     files = reader_files(rng, quick)
     stats["reader_files"] = len(files)
-    base = readcheck.run_both([{"data": d} for _, d in files], profile, want_model=False)
+    base = readcheck.run_both([{"data": d} for _, d in files], profile, want_model=False, revisit=False)
     cases, meta = [], []
     for (name, d), (b, _) in zip(files, base):
         total = b.get("ops", 0)
@@ -54,7 +54,7 @@ def check(rep):
         for k in ks:
             cases.append({"data": d, "fail": k})
             meta.append((name, k, b))
-    res = readcheck.run_both(cases, profile, want_model=True)
+    res = readcheck.run_both(cases, profile, want_model=True, revisit=False)
     stats["reader_fault_points"] = len(cases)
     evals += len(cases)
     for (name, k, b), c, (impl, model) in zip(meta, cases, res):
@@ -88,7 +88,7 @@ def check(rep):
         for chunk, intr in ((1, 0), (2, 0), (3, 5), (7, 3), (0, 2)):
             split_cases.append({"data": d, "chunk": chunk, "intr": intr})
             smeta.append((name, chunk, intr, b))
-    res = readcheck.run_both(split_cases, profile, want_model=False)
+    res = readcheck.run_both(split_cases, profile, want_model=False, revisit=False)
     stats["split_runs"] += len(split_cases)
     evals += len(split_cases)
     for (name, chunk, intr, b), c, (impl, _) in zip(smeta, split_cases, res):
